@@ -34,34 +34,35 @@ Proof.
   intros p b Hp Hb. pose proof msg_buf_size_pos as Hs.
   unfold within_buffer, writes_within_buffer, written.
   pose proof (extent_bounds (as_size msg_prefix_limit) p (as_size_nonneg _) Hp) as H1.
-  pose proof (extent_bounds (as_size (msg_body_limit p)) b (as_size_nonneg _) Hb) as H2.
+  pose proof (extent_bounds (as_size (msg_body_limit (body_start p))) b (as_size_nonneg _) Hb) as H2.
   fold (prefix_extent p) in H1. fold (body_extent p b) in H2.
-  rewrite andb_true_iff, orb_true_iff, !Z.leb_le, Z.eqb_eq. split.
-  - intros [Ha Hc] i [Hi|Hi]; [lia|]. destruct Hc as [Hc|Hc]; lia.
+  rewrite andb_true_iff, orb_true_iff, andb_true_iff, !Z.leb_le, Z.eqb_eq. split.
+  - intros [Ha Hc] i [Hi|Hi]; [lia|]. destruct Hc as [Hc|[Hc Hd]]; lia.
   - intros H. split.
     + destruct (Z.eq_dec (prefix_extent p) 0) as [E|E]; [lia|].
       specialize (H (prefix_extent p - 1)). lia.
     + destruct (Z.eq_dec (body_extent p b) 0) as [E|E]; [now left|right].
-      specialize (H (p + body_extent p b - 1)). lia.
+      pose proof (H (body_start p)) as Ha. pose proof (H (body_start p + body_extent p b - 1)) as Hb'.
+      lia.
 Qed.
 
 (* per-prefix criterion: print_msg is safe for EVERY body length iff the size argument
-   handed to vsnprintf does not exceed what is left of the buffer *)
+   handed to vsnprintf does not exceed what is left of the buffer behind the start offset *)
 Theorem msg_write_safe_criterion : forall p, 0 <= p ->
   ((forall b, 0 <= b -> writes_within_buffer p b) <-> safe_at p = true).
 Proof.
-  intros p Hp. unfold safe_at. set (n := as_size (msg_body_limit p)).
+  intros p Hp. unfold safe_at. set (n := as_size (msg_body_limit (body_start p))).
   assert (Hn : 0 <= n) by apply as_size_nonneg.
-  rewrite andb_true_iff, orb_true_iff, !Z.leb_le, Z.eqb_eq. split.
+  cbv zeta. rewrite andb_true_iff, orb_true_iff, andb_true_iff, !Z.leb_le, Z.eqb_eq. split.
   - intros H. specialize (H n Hn). apply within_buffer_spec in H; try lia.
     unfold within_buffer in H.
-    rewrite andb_true_iff, orb_true_iff, !Z.leb_le, Z.eqb_eq in H.
+    rewrite andb_true_iff, orb_true_iff, andb_true_iff, !Z.leb_le, Z.eqb_eq in H.
     unfold body_extent in H. fold n in H. rewrite extent_full in H by exact Hn. exact H.
   - intros [Ha Hc] b Hb. apply within_buffer_spec; try lia.
-    unfold within_buffer. rewrite andb_true_iff, orb_true_iff, !Z.leb_le, Z.eqb_eq.
+    unfold within_buffer. rewrite andb_true_iff, orb_true_iff, andb_true_iff, !Z.leb_le, Z.eqb_eq.
     split; [exact Ha|]. unfold body_extent. fold n.
     pose proof (extent_bounds n b Hn Hb) as HB.
-    destruct Hc as [Hc|Hc].
+    destruct Hc as [Hc|[Hc Hd]].
     + left. apply extent_zero; assumption.
     + right. lia.
 Qed.
